@@ -35,7 +35,16 @@ R9  every value a construct's src() renders into a line of the generated
     the position cannot take, or goes through !r; each validator relied on
     (identifier pattern incl. its end anchor, converter-map keys, whitespace
     outside field expressions per segment) is its own obligation.
-R3-R5, R10 locate the finder call `self._find(...)` directly or through one
+R3(d) also decides that the *numbered* generated variables (field_value_N, dict_match_N, dict_groups_N) are unique
+    along a root-to-leaf path: N is read from its creation site and must be len(<parameter stack>) + k (same k at every
+    site of one name template; `enumerate(.., start=len(stack) + k)` with an unconditional push per iteration counts);
+    an index restarted per node (literal, enumerate/range from a constant, a local counter) is a violation.
+R13 built-in converters (BUILTIN table): __init__ + convert() are interpreted concretely on a probe set per converter
+    and documented option set and compared with the tabled documented behaviour (conversion primitive, documented
+    options, whitespace screening of int/float): an additional veto in front of the primitive, a dropped veto, another
+    value or an exception are violations; vetoes implied by the primitive's own rejection are silent.
+R14 find() is interpreted up to the finder call on probe paths: the finder gets uri.lstrip('/').split('/') unchanged.
+R3-R5, R10, R14 locate the finder call `self._find(...)` directly or through one
     same-class helper (`*tables` / local aliases of router attributes resolved).
 """
 
@@ -1347,7 +1356,109 @@ def _expr_names(text: str) -> Optional[Set[str]]:
     return {n.id for n in ast.walk(tree) if isinstance(n, ast.Name)}
 
 
-def _generated_reads(p, model: H.CxModel, g: Func, rd: 'H.ReachingDefs', nid: int, e, depth=0) -> Tuple[Set[str], List[str]]:
+def _peel_const(e) -> Tuple[ast.AST, int]:
+    """(base, k) with e == base + k for int literals added/subtracted on either side."""
+    k = 0
+    while isinstance(e, ast.BinOp) and isinstance(e.op, (ast.Add, ast.Sub)):
+        if isinstance(e.right, ast.Constant) and type(e.right.value) is int:
+            k += e.right.value if isinstance(e.op, ast.Add) else -e.right.value
+            e = e.left
+        elif isinstance(e.op, ast.Add) and isinstance(e.left, ast.Constant) and type(e.left.value) is int:
+            k += e.left.value
+            e = e.right
+        else:
+            break
+    return e, k
+
+
+def _index_origin(p, g: Func, rd: 'H.ReachingDefs', at: int, e, uq, depth=0, seen=None):
+    """Where the index a generated variable name is built from comes from:
+    ('stack', S, k, node)  = len(S) + k for a parameter stack S, evaluated at `node`: larger than every index handed out
+                             for an ancestor, because each of those was followed by a push on S;
+    ('restart', why)       = a value that starts again from a constant in every activation of the generator function
+                             (a literal, `enumerate(.., start=<const>)`, `range(<const>..)`, a local counter initialised
+                             with a literal): two nodes on one root-to-leaf path get the same name.
+    `enumerate(seq, start=len(S) + k)` / `range(len(S) + k, ..)` count as 'stack' when the construct reading the name is
+    pushed on S unconditionally in every iteration (the counter and the stack depth then advance in lock-step or the depth
+    runs ahead).  Anything else is UnknownIdiom."""
+    cfg = rd.cfg
+    seen = set() if seen is None else seen
+    if depth > 6:
+        raise UnknownIdiom('%s: origin of the unique index %s: chain too deep' % (g.qual, short(e, 40)))
+    base, k = _peel_const(e)
+    if isinstance(base, ast.Constant) and type(base.value) is int:
+        return ('restart', 'the index is the constant %d' % (base.value + k))
+    if isinstance(base, ast.Call) and len(base.args) == 1 and not base.keywords and isinstance(base.args[0], ast.Name) \
+            and p.resolve_callable(g, base.func) == 'builtins.len':
+        S = base.args[0].id
+        if S not in uq['snames']:
+            raise UnknownIdiom('%s: unique index %s counts `%s`, which is not a parameter stack' % (g.qual, short(e, 40), S))
+        return ('stack', S, k, at)
+    if not isinstance(base, ast.Name):
+        raise UnknownIdiom('%s: origin of the unique index %s is not understood' % (g.qual, short(e, 40)))
+    outs = []
+    for d in sorted(rd.at(at, base.id)):
+        if d == H.ENTRY_DEF:
+            raise UnknownIdiom('%s: unique index %s is handed in by the caller (a counter carried down by argument is not modelled)'
+                               % (g.qual, base.id))
+        if (d, base.id) in seen:
+            continue     # loop-carried: the acyclic definitions decide
+        seen.add((d, base.id))
+        dn = cfg.node(d)
+        v = rd.def_value(d, base.id)
+        if v is not None:
+            o = _index_origin(p, g, rd, d, v, uq, depth + 1, seen)
+        elif dn.kind == 'stmt' and isinstance(dn.ast, ast.AugAssign) and isinstance(dn.ast.target, ast.Name) \
+                and isinstance(dn.ast.op, (ast.Add, ast.Sub)) and isinstance(dn.ast.value, ast.Constant) and type(dn.ast.value.value) is int:
+            o = _index_origin(p, g, rd, d, ast.Name(id=base.id, ctx=ast.Load()), uq, depth + 1, seen)
+            if o is not None and o[0] == 'stack':
+                raise UnknownIdiom('%s: counter %s starts from the stack depth and is stepped by hand' % (g.qual, base.id))
+            if o is not None:
+                o = ('restart', 'local counter `%s`: %s' % (base.id, o[1]))
+        elif dn.kind == 'iter' and isinstance(dn.stmt, ast.For):
+            o = _loop_index_origin(p, g, rd, d, dn.stmt, base.id, uq, depth, seen)
+        else:
+            raise UnknownIdiom('%s: unique index %s is bound by `%s`' % (g.qual, base.id, dn.text()))
+        if o is not None:
+            outs.append(o if o[0] == 'restart' else ('stack', o[1], o[2] + k, o[3]))
+    if not outs:
+        raise UnknownIdiom('%s: unique index %s has no acyclic definition' % (g.qual, base.id))
+    if all(o[0] == 'restart' for o in outs):
+        return outs[0]
+    if all(o[0] == 'stack' for o in outs) and len({(o[1], o[2]) for o in outs}) == 1:
+        return outs[0]
+    raise UnknownIdiom('%s: unique index %s has definitions of different kinds' % (g.qual, base.id))
+
+
+def _loop_index_origin(p, g: Func, rd, d: int, loop: ast.For, name: str, uq, depth, seen):
+    it, tgt = loop.iter, loop.target
+    q = p.resolve_callable(g, it.func) if isinstance(it, ast.Call) and isinstance(it.func, (ast.Name, ast.Attribute)) else None
+    if any(isinstance(a, ast.Starred) for a in getattr(it, 'args', [])):
+        q = None
+    start = None
+    if q == 'builtins.enumerate' and isinstance(tgt, (ast.Tuple, ast.List)) and len(tgt.elts) == 2 and isinstance(tgt.elts[0], ast.Name) \
+            and tgt.elts[0].id == name and 1 <= len(it.args) <= 2 and all(k.arg == 'start' for k in it.keywords):
+        start = it.args[1] if len(it.args) == 2 else (it.keywords[0].value if it.keywords else ast.Constant(value=0))
+        how = 'enumerate(%s, start=%s)' % (short(it.args[0], 40), short(start, 30))
+    elif q == 'builtins.range' and isinstance(tgt, ast.Name) and tgt.id == name and 1 <= len(it.args) <= 3 and not it.keywords:
+        start = it.args[0] if len(it.args) >= 2 else ast.Constant(value=0)
+        how = short(it, 60)
+    if start is None:
+        raise UnknownIdiom('%s: unique index %s is bound by `for %s in %s`' % (g.qual, name, short(tgt, 40), short(it, 60)))
+    o = _index_origin(p, g, rd, d, start, uq, depth + 1, seen)
+    if o[0] == 'restart':
+        return ('restart', '%s restarts the numbering for every node: %s' % (how, o[1]))
+    # counter started from the stack depth: the depth must advance at least as fast as the counter
+    S = o[1]
+    body_push = any(st is uq['push_stmt'] for st in loop.body)
+    rebound = any(S in H.node_defs(n) for n in rd.cfg.live_nodes() if n.id != d and any(n.ast is x for st in loop.body for x in ast.walk(st)))
+    if not body_push or rebound or S != uq['stack']:
+        raise UnknownIdiom('%s: %s counts from the depth of `%s`, but the construct reading the name is not pushed on it unconditionally '
+                           'in every iteration' % (g.qual, how, S))
+    return o
+
+
+def _generated_reads(p, model: H.CxModel, g: Func, rd: 'H.ReachingDefs', nid: int, e, depth=0, uq=None) -> Tuple[Set[str], List[str]]:
     """The generated-code names that the text of generator expression `e`
     (evaluated at CFG node nid) reads once it is rendered as an expression of
     the finder: (fixed names, per-instance names that are nevertheless the same
@@ -1369,7 +1480,7 @@ def _generated_reads(p, model: H.CxModel, g: Func, rd: 'H.ReachingDefs', nid: in
             v = rd.def_value(d, e.id) if d != H.ENTRY_DEF else None
             if v is None:
                 raise UnknownIdiom('%s: origin of %s, rendered as an expression of the finder, is not a plain local assignment' % (g.qual, e.id))
-            f2, s2 = _generated_reads(p, model, g, rd, d, v, depth + 1)
+            f2, s2 = _generated_reads(p, model, g, rd, d, v, depth + 1, uq)
             fixed |= f2
             same += s2
         return fixed, same
@@ -1397,6 +1508,18 @@ def _generated_reads(p, model: H.CxModel, g: Func, rd: 'H.ReachingDefs', nid: in
                 raise UnknownIdiom('%s: construction %s' % (g.qual, short(v, 80)))
             if all(isinstance(v.args[i], ast.Constant) for i in src[2]):
                 same.append('%s of %s (built from constants only)' % (e.attr, short(v, 60)))
+            elif uq is not None:
+                # the name is built from per-instance arguments: unique along a root-to-leaf path only if one of them
+                # counts the assignments already collected for the ancestors (the depth of the parameter stack)
+                origins = [_index_origin(p, g, rd, d, v.args[i], uq) for i in src[2] if not isinstance(v.args[i], ast.Constant)]
+                counted = [o for o in origins if o[0] == 'stack']
+                for (_k, S, off, at2) in counted:
+                    if S != uq['stack'] or rd.at(at2, S) != rd.at(uq['push'], S):
+                        raise UnknownIdiom('%s: the index of %s counts `%s`, not (surely) the list the construct reading it is pushed on (`%s`)'
+                                           % (g.qual, short(v, 60), S, uq['stack']))
+                    uq['offsets'].setdefault(src[1], []).append((off, '%s in %s' % (short(v, 60), g.name)))
+                if not counted:
+                    same.append('%s of %s (%s)' % (e.attr, short(v, 60), '; '.join(o[1] for o in origins)))
         return fixed, same
     raise UnknownIdiom('%s: %s is rendered as an expression of the finder; its origin is not understood' % (g.qual, short(e, 60)))
 
@@ -1411,6 +1534,7 @@ def _delayed_reads(run, p, model: H.CxModel, funcs: List[Func], stacks: Dict[str
     ambient = _ambient_names(model)
     run.extra['c01_shared_generated_names'] = {k: v for k, v in sorted(shared.items())}
     n_d = 0
+    offsets: Dict[str, List[Tuple[int, str]]] = {}    # name template -> (offset from the stack depth, creation site)
     for g in funcs:
         snames = set(stacks.get(g.qual, set()))
         for nm in g.params():
@@ -1461,7 +1585,8 @@ def _delayed_reads(run, p, model: H.CxModel, funcs: List[Func], stacks: Dict[str
                             raise UnknownIdiom('%s: attribute %s rendered as an expression is not a constructor parameter' % (cx.qual, attr))
                         if v.keywords or any(isinstance(x, ast.Starred) for x in v.args) or pi >= len(v.args):
                             raise UnknownIdiom('%s: construction %s' % (g.qual, short(v, 80)))
-                        f2, s2 = _generated_reads(p, model, g, rd, at, v.args[pi])
+                        uq = {'snames': snames, 'stack': c.func.value.id, 'push': n.id, 'push_stmt': n.ast, 'offsets': offsets}
+                        f2, s2 = _generated_reads(p, model, g, rd, at, v.args[pi], uq=uq)
                         fixed |= f2
                         same += s2
                 bad = ['`%s` (assigned by %s for every node that emits it)' % (nm, '/'.join(shared[nm])) for nm in sorted(fixed) if nm in shared]
@@ -1478,6 +1603,16 @@ def _delayed_reads(run, p, model: H.CxModel, funcs: List[Func], stacks: Dict[str
                           runtime_witness='routes /{a:int}-{b}/{c:int}-{d} and /{a:int}-{b}/{e}: GET /1-x/2-y loses b; GET /1-x/q-y '
                                           '(inner pattern matches, converter refuses, walk falls back to {e}) loses b and carries d '
                                           'from the abandoned branch')
+    gen = funcs[0]
+    for tmpl, sites in sorted(offsets.items()):
+        ks = sorted({k for (k, _t) in sites})
+        n_d += 1
+        run.check(len(ks) == 1, 'every creation site of the generated variable %r numbers it <depth of the parameter stack> + the same '
+                  'constant, so the index handed to a node is larger than every index handed to one of its ancestors (each of those was '
+                  'followed by a push)' % tmpl, gen, '%s: index = len(<stack>) %s' % (tmpl, ' / '.join('%+d' % k for k in ks)),
+                  where=gen.loc(), witness=['%+d: %s' % (k, t) for (k, t) in sorted(set(sites))] if len(ks) != 1 else None,
+                  runtime_witness='/{a:int}/{b:int}-{c}: the numbering of one site runs one ahead of the other, so a descendant reuses '
+                                  'the local that still holds an ancestor\'s converted value; the ancestor gets the descendant\'s value')
     return n_d
 
 
@@ -1555,7 +1690,9 @@ def r3_delayed_params(run):
         emit_nodes: Dict[int, Tuple[str, ast.For]] = {}   # body stmt node -> (receiver, loop)
         for lp in [n for n in walk_self(g.node) if isinstance(n, ast.For)]:
             if not (isinstance(lp.iter, ast.Name) and lp.iter.id in snames):
-                if any(isinstance(x, ast.Name) and x.id in snames for x in walk_self(lp.iter)):
+                counted = {id(c.args[0]) for c in walk_self(lp.iter) if isinstance(c, ast.Call) and len(c.args) == 1 and not c.keywords
+                           and p.resolve_callable(g, c.func) == 'builtins.len'}    # `len(S)` reads the depth, not the elements
+                if any(isinstance(x, ast.Name) and x.id in snames and id(x) not in counted for x in walk_self(lp.iter)):
                     raise UnknownIdiom('%s: loop over %s' % (g.qual, short(lp.iter, 60)))
                 continue
             ok_shape = (len(lp.body) == 1 and isinstance(lp.body[0], ast.Expr) and isinstance(lp.body[0].value, ast.Call)
@@ -2559,6 +2696,230 @@ def r11_converter_bounds(run):
         raise AnchorError('converter functions reading numeric options not found (%d)' % n_fn)
 
 
+# ---------------------------------------------------------------------------
+# R13 built-in converters veto exactly what they are documented to veto
+# ---------------------------------------------------------------------------
+
+CONVERTERS = 'falcon.routing.converters'
+
+
+def _builtin_converters(p) -> Dict[str, Class]:
+    """identifier -> class, read from the BUILTIN table (the identifiers are
+    what URI templates name: public contract)."""
+    mod = p.module(CONVERTERS)
+    tab = mod.consts.get('BUILTIN')
+    if not isinstance(tab, (ast.Tuple, ast.List)) or not tab.elts:
+        raise AnchorError('%s.BUILTIN is not a tuple display of (identifier, class) pairs' % CONVERTERS)
+    out: Dict[str, Class] = {}
+    for el in tab.elts:
+        if not (isinstance(el, (ast.Tuple, ast.List)) and len(el.elts) == 2 and isinstance(el.elts[0], ast.Constant)
+                and isinstance(el.elts[0].value, str)):
+            raise UnknownIdiom('%s.BUILTIN: entry %s' % (CONVERTERS, short(el, 60)))
+        q = p.resolve_expr(mod, el.elts[1])
+        if q not in p.classes:
+            raise UnknownIdiom('%s.BUILTIN: %s is not a class of the analysed tree' % (CONVERTERS, short(el.elts[1], 40)))
+        out[el.elts[0].value] = p.classes[q]
+    return out
+
+
+def _return_site(conv: Func, I: 'H.Concrete') -> Tuple[Func, str]:
+    """Where the None came from: the `return` that produced it, described by the test / handler it sits under."""
+    if not I.returns or I.returns[-1][0] is not conv:
+        return conv, 'falls off the end of convert() (returns None)'
+    f, stmt = H.originating_return(I.returns)
+    par = enclosing_map(f.node)
+    child = stmt
+    for anc in ancestors(stmt, par):
+        if isinstance(anc, ast.If):
+            neg = not any(child is s for s in anc.body)
+            return f, '%s under `%s%s`' % (short(stmt, 60), 'not: ' if neg else '', short(anc.test, 110))
+        if isinstance(anc, ast.ExceptHandler):
+            return f, '%s in `except %s`' % (short(stmt, 60), short(anc.type, 60) if anc.type is not None else '')
+        if isinstance(anc, (ast.FunctionDef, ast.AsyncFunctionDef)):
+            break
+        child = anc
+    return f, short(stmt, 100)
+
+
+def r13_builtin_converters(run):
+    """"Converters may veto a match": a field with a built-in converter matches
+    exactly the values the converter is documented to accept -- the conversion
+    primitive (int / float / datetime.strptime / uuid.UUID / '/'.join) decides,
+    narrowed only by the documented options (num_digits, min, max, finite,
+    format_string) and the tabled whitespace screening of int/float.  convert()
+    (with __init__ and same-tree helpers) is interpreted on a probe set per
+    converter and option set and compared with that table: an ADDITIONAL veto
+    in front of the primitive (layout regex, length / character-class test)
+    that rejects a probe the primitive accepts is a violation; one that is
+    implied by the primitive's own rejection (`if not value: return None`) is
+    silent.  W: a uuid pre-check written with [0-9a-f]: /widgets/{wid:uuid}
+    no longer matches /widgets/6F9619FF-8B86-D011-B42D-00C04FC964FF, the walk
+    falls into another branch (or 404)."""
+    p = run.project
+    table = _builtin_converters(p)
+    missing = sorted(set(H.CONVERTER_ORACLES) - set(table))
+    if missing:
+        raise AnchorError('%s.BUILTIN no longer lists the converter(s) %s' % (CONVERTERS, ', '.join(missing)))
+    extra = sorted(set(table) - set(H.CONVERTER_ORACLES))
+    if extra:
+        raise UnknownIdiom('%s.BUILTIN lists converter(s) %s whose documented behaviour is not tabled' % (CONVERTERS, ', '.join(extra)))
+    import copy
+    for ident, cls in sorted(table.items()):
+        spec = H.CONVERTER_ORACLES[ident]
+        conv = p.lookup_method(cls.qual, 'convert')
+        if conv is None:
+            raise AnchorError('%s has no convert()' % cls.qual)
+        run.use(conv)
+        probes = list(spec['probes'])
+        if spec['numeric']:
+            # lengths the code itself mentions (a length cut-off shows at its boundary)
+            seen_fn = [conv] + [t for c in walk_self(conv.node) if isinstance(c, ast.Call) for t in [p.callee(conv, c)] if isinstance(t, Func)]
+            for fn in seen_fn:
+                for n in ast.walk(fn.node):
+                    if isinstance(n, ast.Constant) and type(n.value) is int and 2 <= n.value <= 200:
+                        probes += ['1' * (n.value - 1), '1' * n.value, '1' * (n.value + 1)]
+        findings: Dict[Tuple[str, str, str], List[str]] = {}
+        funcs_of: Dict[Tuple[str, str, str], Func] = {}
+        for opts in spec['configs']:
+            I = H.Concrete(p, conv.qual)
+            label = '%s(%s)' % (ident, ', '.join('%s=%r' % kv for kv in sorted(opts.items())))
+            try:
+                obj = I.call(H.ClassVal(cls), [], dict(opts))
+            except H.CRaise as e:
+                raise UnknownIdiom('%s: the constructor refuses the documented option set %s (%s)' % (cls.qual, label, e.qual))
+            n_bad = 0
+            for probe in probes:
+                I.returns = []
+                I.steps = 0
+                why, want = spec['oracle'](opts, probe)
+                raised = None
+                got = None
+                try:
+                    got = I.call_func(conv, [obj, copy.copy(probe)], {})
+                except H.CRaise as e:
+                    raised = e.qual
+                shown = '%s on %r' % (label, probe)
+                if raised is not None:
+                    key = ('raise', conv.qual, 'convert() raises %s' % raised.rsplit('.', 1)[-1])
+                    f = conv
+                elif why is None and got is None:
+                    f, site = _return_site(conv, I)
+                    key = ('veto', f.qual, site)
+                    shown += ' (documented result: %r)' % (want,)
+                elif why is not None and got is not None:
+                    f = conv
+                    key = ('accept', conv.qual, 'a value is accepted that is to be rejected: %s' % why)
+                    shown += ' -> %r' % (got,)
+                elif why is None and not H.same_value(got, want):
+                    f = conv
+                    key = ('value', conv.qual, 'convert() returns a different value than the conversion primitive')
+                    shown += ' -> %r, documented %r' % (got, want)
+                else:
+                    continue
+                n_bad += 1
+                findings.setdefault(key, []).append(shown)
+                funcs_of[key] = f
+            if n_bad == 0:
+                run.ok('%s: convert() vetoes / converts the %d probe values exactly as documented (primitive, documented options, '
+                       'tabled whitespace screening)' % (label, len(probes)), conv.loc(), '%s.convert [%s]' % (cls.name, label))
+        WHAT = {'veto': 'rejects a field value only where the documented converter does: the conversion primitive fails, a documented option '
+                        'excludes it, or (int/float) it is padded with whitespace -- no additional veto in front of the primitive',
+                'accept': 'rejects every field value the documented converter rejects',
+                'value': 'returns the value the conversion primitive yields',
+                'raise': 'never raises: a field value that cannot be converted is vetoed with None'}
+        RW = {'veto': 'a route with a {field:%s} segment no longer matches such a path: the walk backtracks into another branch or ends in 404' % ident,
+              'accept': 'a path whose field value the converter must veto is routed to the {field:%s} route instead of backtracking' % ident,
+              'value': 'the matched route gets a different field value',
+              'raise': 'find() fails with an internal error instead of backtracking'}
+        for key in sorted(findings):
+            kind, _fq, construct = key
+            run.fail('%s converter (%s): convert() %s' % (ident, cls.name, WHAT[kind]), funcs_of[key], construct,
+                     where=funcs_of[key].loc(), witness=findings[key][:8] + (['... %d more' % (len(findings[key]) - 8)] if len(findings[key]) > 8 else []),
+                     runtime_witness=RW[kind])
+
+
+# ---------------------------------------------------------------------------
+# R14 the finder walks the segments of the request path as given
+# ---------------------------------------------------------------------------
+
+def r14_find_segments(run):
+    """The segment list find() hands to the compiled finder is exactly
+    `uri.lstrip('/').split('/')` of its argument: an empty segment is a segment
+    (matched by a single-field node, literal in '/c/', part of what a trailing
+    path converter swallows).  find() -- through one same-class helper if need
+    be -- is interpreted up to the finder call on a probe set of paths; any
+    further transformation that changes the list for some probe (collapsing
+    '//' , dropping empty segments, strip, case folding, unquoting) is a
+    violation; a rewrite that yields the same list for every probe is silent.
+    W: routes /a/b and /a/{x}/b: find('/a//b') returns /a/b instead of
+    /a/{x}/b with x=''."""
+    p = run.project
+    find = p.func(ROUTER + '.find')
+    router = p.cls(ROUTER)
+    run.use(find)
+    prms = [x for x in find.params() if x not in ('self', 'cls')]
+    if not prms:
+        raise AnchorError('%s takes no path argument' % find.qual)
+    site = single([st for st in _finder_sites(p, router) if st.method is find],
+                  'call of self.%s (directly or through one same-class helper)' % FINDER_SLOT, find.qual)
+    FINDER = object()
+
+    class _Stop(Exception):
+        pass
+
+    got_args: List[list] = []
+
+    def attr_hook(obj, name):
+        return FINDER if name == FINDER_SLOT else NotImplemented
+
+    def call_hook(fn, args, kwargs, node):
+        if fn is FINDER:
+            got_args.append(list(args))
+            raise _Stop()
+        return NotImplemented
+
+    bad: List[str] = []
+    n = 0
+    for probe in H.FIND_PROBES:
+        I = H.Concrete(p, find.qual, attr_hook=attr_hook, call_hook=call_hook)
+        del got_args[:]
+        want = probe.lstrip('/').split('/')
+        try:
+            res = I.call_func(find, [H.CObj(router), probe], {})
+            bad.append('find(%r) answers %r without running the finder (segments to walk: %r)' % (probe, res, want))
+        except _Stop:
+            if not got_args[0]:
+                raise UnknownIdiom('%s: the finder is called without positional arguments' % find.qual)
+            got = got_args[0][0]
+            if not (isinstance(got, (list, tuple)) and list(got) == want):
+                bad.append('find(%r): the finder walks %r, the path has the segments %r' % (probe, got, want))
+        except H.CRaise as e:
+            bad.append('find(%r) raises %s before the finder runs' % (probe, e.qual.rsplit('.', 1)[-1]))
+        n += 1
+    # what the extra step is (for the key and the witness): provenance of the path argument
+    construct = 'path argument %s of self.%s' % (short(site.args[0], 60) if site.args else '<none>', FINDER_SLOT)
+    steps: List[str] = []
+    if bad and site.args:
+        try:
+            prov = H.path_provenance(p, find, prms[0])
+            o = prov.classify(site.args[0], H.node_of_ast(prov.cfg, site.anchor))
+
+            def normal(node):
+                return (isinstance(node, ast.Call) and isinstance(node.func, ast.Attribute) and node.func.attr in ('split', 'lstrip')
+                        and len(node.args) == 1 and not node.keywords and isinstance(node.args[0], ast.Constant) and node.args[0].value == '/')
+            extras = [x for x in o.xforms if not normal(x[1])]
+            if extras:
+                construct = ' ; '.join(short(x[1], 90) for x in extras)
+            steps = o.describe()
+        except (UnknownIdiom, AnchorError):
+            pass
+    run.check(not bad, 'the segment list handed to the compiled finder is uri.lstrip(\'/\').split(\'/\') of find()\'s argument for each of %d '
+              'probe paths (empty segments kept, nothing collapsed, stripped, filtered or re-cased)' % n, find, construct,
+              where=find.loc(site.anchor), witness=(bad[:8] + ['on the way from the parameter: %s' % s_ for s_ in steps]) if bad else None,
+              runtime_witness="routes /a/b and /a/{x}/b: find('/a//b') must walk ['a', '', 'b'] and return /a/{x}/b with x=''; "
+                              "'/files//a' under /files/{p:path} must give p='/a'")
+
+
 def check(run):
     run.assume('a rejection is an exception in the E5 summary of add_route (explicit raises, closed over resolved callees); '
                'other exceptions (IndexError, MemoryError, ...) are internal errors, not rejections')
@@ -2588,4 +2949,6 @@ def check(run):
     run.rule('R12', _c19.r6_tables_rebound, 'a recompile publishes fresh side tables; lookups in flight keep a consistent finder/table pair (shared with C19 R6)', floor=3)
     run.rule('R11', r11_converter_bounds, 'converter bounds are tested against None, not by truthiness', floor=1)
     run.rule('R10', r10_finder_invalidated, 'every accepted add_route invalidates or rebuilds the compiled finder', floor=3)
+    run.rule('R13', r13_builtin_converters, 'built-in converters veto exactly what their conversion primitive, documented options and tabled screening veto', floor=10)
+    run.rule('R14', r14_find_segments, "find() hands the finder uri.lstrip('/').split('/') unchanged", floor=1)
     run.rule('R9', r9_rendered_text, 'template-derived text reaches a line of the generated source only validated, converted (!r), or as int / generated name', floor=28)
